@@ -116,6 +116,14 @@ def run_case(prog):
         rs = delivered.get("reason")
         if xs and (rs is None or not any(("MARK-%d-" % r["i"]).encode() == rs[1] for r in xs)):
             vs.append(V("reason", "expectFailure", "reason detail of %s is %r, expectFailure was called with markers %r" % (out[0], rs and rs[1], [r["i"] for r in xs])))
+    if out[0] == "addSkip" and model.skipped_by_decorator:
+        # the reason given to the decorator is the reason reported
+        want_r = "" if prog["decor"].endswith("_empty") else "decorated"
+        got_r = ctx.get("reason")
+        if got_r is None and delivered.get("reason") is not None:
+            got_r = delivered["reason"][1].decode("utf8", "replace")
+        if got_r != want_r:
+            vs.append(V("reason", "decorator-skip", "a test skipped by @%s reported the reason %r" % (prog["decor"], got_r)))
     if out[0] == "addSkip" and not model.skipped_by_decorator:
         skips = [r for r in model.raised if P.klass(r["kind"]) == "skip"]
         rs = delivered.get("reason")
